@@ -49,6 +49,22 @@ CHECKS = {
                 note='Only roots are waited on; a nested node is required to trigger only while all its ancestors are '
                      'untriggered (the kernel detaches decided subtrees; pinned by test_condition_nested_callback_removal).',
                 ref='4/C05'),
+    'C06': dict(engine='R', what='request/hold/release/cancel/with-exit/double-release/interrupt histories on Resource, '
+                'PriorityResource, PreemptiveResource (capacity 1-3) at coinciding instants',
+                text='Seeded exploration; after every kernel step and at every instant boundary (clock about to advance) '
+                     'the users/queue/count of the real resource are compared with the books kept from the observed '
+                     'grants, releases and legal evictions (worst-ranked user, strictly worse key, Preempted cause), '
+                     'grant-rank order is checked at every grant, and no request may wait next to a free slot at a boundary.',
+                note='Grants are seen as trigger records of request events; each process uses one request at a time.',
+                ref='4/C06'),
+    'C07': dict(engine='R', what='put/get/cancel/interrupt histories with amounts, unique items, priorities and filters on '
+                'Container, Store, PriorityStore, FilterStore of any capacity and initial level',
+                text='Seeded exploration; level/items bounds and conservation after every step, delivery order per store '
+                     'kind, FCFS per request kind, and at every instant boundary the oldest pending put/get must be '
+                     'unsatisfiable in the current state (also right after cancels); the resource\'s own queues must '
+                     'equal the books.',
+                note='Amounts are integers/dyadic so level arithmetic is exact; item uids stay unique under shrinking.',
+                ref='4/C07'),
 }
 
 ENGINES = [
